@@ -255,6 +255,10 @@ def _match_list(
 
 
 def _match_wildcard(node: ast.AST, template: Wildcard, ignore: Collection[str]) -> Tuple:
+    # A wildcard stands for something that is there, not for an optional part that is absent
+    if node is None:
+        return ()
+
     # Special case for ellipsis {{...}} pattern, which matches everything.
     if template.name == "Ellipsis_anything" and template.template is object:
         return (node,)
